@@ -70,6 +70,9 @@ func acquireFromHolder(len int) (uintptr, *[]byte, error) {
 		logger.Error("placeholder space usage overflow", placeHolderIns.count, "hook functions")
 		return 0, nil, errSpaceOverflow
 	}
+	// the region owned by this call is the one reserved by the atomic add above; the
+	// offset loaded earlier may already have been handed to a concurrent caller
+	placeholder = newOffset - uintptr(len)
 
 	bytes := (*[]byte)(unsafe.Pointer(&reflect.SliceHeader{
 		Data: placeholder,
